@@ -114,7 +114,15 @@ class Traces:
                         "stream": list(self.meta[tid]["data"]), "ob": framer_rec.observables(tr)})
         return out
 
-    def judge(self, shards=16, always_out=False):
+    def slice_records(self, tids):
+        out = []
+        for tid in tids:
+            tr = self.traces[tid - 1]
+            out.append({"tid": tid, "validate": tr["validate"], "parsed": tr["parsed"], "stream": list(self.meta[tid]["data"]),
+                        "rets": [list(e["raw"]) for e in tr["ev"] if e["then"] == "ret"]})
+        return out
+
+    def judge(self, shards=16, always_out=False, slices=False):
         """
         Exact binding first (FramerTrace: every request is the specification's request).  A trace
         that is rejected for its READ PATTERN alone is judged again at output level (FramerOut):
@@ -160,6 +168,21 @@ class Traces:
                     # answered with something else than the next bytes
                     verdicts[tid] = ("reject", "Out:" + v[1], v[2], v[3])
             self.rep.notes["output_level_traces"] = len(ov)
+        # the core of C01 as a predicate on (stream, delivered frames), whatever the read pattern and
+        # whatever faults were injected (SliceJudge.tla): for every trace when asked for, and always for
+        # the traces neither binding could judge
+        unj = [tid for tid, v in verdicts.items() if v[1] == "ReadPatternDeviates:unjudged"]
+        todo = [t["tid"] for t in self.traces] if slices else unj
+        if todo:
+            sv, sres = framer_rec.judge_slices(self.slice_records(todo), shards=shards)
+            for r in sres:
+                self.rep.add_tlc(r)
+            for tid, v in sv.items():
+                if v[0] == "reject" and verdicts[tid][0] == "accept":
+                    verdicts[tid] = ("reject", "Slice:" + v[1], v[2], v[3])
+                elif verdicts[tid][1] == "ReadPatternDeviates:unjudged":
+                    verdicts[tid] = ("accept", "ReadPatternDeviates:slices-only", verdicts[tid][2], verdicts[tid][3])
+            self.rep.notes["slice_judged_traces"] = len(sv)
         self.frames = frames
         return verdicts
 
